@@ -9,6 +9,25 @@ Open Scope list_scope.
 Definition app_op (subs : list op) (o : option op) : list op :=
   match o with Some x => subs ++ [x] | None => subs end.
 
+(* what user code sees: read_text hands out the content, not the comparison
+   result that is recorded *)
+Definition user_answer (q : query) (r : outcome) (w : world) : outcome :=
+  match q, r with
+  | QRead p _, inl _ =>
+      match lookup (w_fs w) p with
+      | Some (NFile f) => inl (PStr (f_bytes f))
+      | _ => r
+      end
+  | _, _ => r
+  end.
+
+Definition log_answer (q : query) (r : outcome) (w : world) : world :=
+  match r with
+  | inl v => set_log (LAnswer q (inl v) :: w_log w) w
+  | inr (XOS c) => set_log (LAnswer q (inr c) :: w_log w) w
+  | inr _ => w
+  end.
+
 (* [target]: the output of the innermost build_file function being run;
    [subs]: the suboperations recorded so far on the current builder *)
 Fixpoint run (pr : prog) (target : option path) (subs : list op) (w : world) {struct pr}
@@ -19,7 +38,8 @@ Fixpoint run (pr : prog) (target : option path) (subs : list op) (w : world) {st
   | Ask stale q k =>
       if stale then run (k (inr (XRuntime RFinished))) target subs w else
       let '(w1, (r, o)) := m_query q w in
-      run (k r) target (app_op subs o) w1
+      let r' := user_answer q r w1 in
+      run (k r') target (app_op subs o) (log_answer q r' w1)
   | Write c k =>
       match target with
       | None => run k target subs w
@@ -27,7 +47,7 @@ Fixpoint run (pr : prog) (target : option path) (subs : list op) (w : world) {st
           let clock := N.succ (w_clock w) in
           match write_file (w_fs w) p c None clock (w_nextid w) with
           | inl fs' => run k target subs (set_clock clock (N.succ (w_nextid w)) (set_fs fs' w))
-          | inr _ => run k target subs w
+          | inr e => (w, (inr (XOS (err_of e)), subs))     (* open() raises inside user code *)
           end
       end
   | BuildFile stale p c fname a kw fn k =>
